@@ -36,6 +36,13 @@ def small_cases(rng, tier):
                 recs = [[rng.choice(gts) for _ in range(n)] for _ in range(6)]
                 recs.append(["0/1"] * n); recs.append(["./."] * n)
                 cases.append("sites %s %s s:%s %s" % (",".join(cols), model_samples(sm), ",".join(map(str, to)), model_records(recs)))
+            # targets with fewer / more entries than there are populations (shape and individuals spelling)
+            for to in ([list(t) for t in targets[:6]] if len(sizes) >= 1 else []):
+                for bad in ([to[:-1], to[:1], to + [1], to + to] if len(to) > 1 else [to + [1], to + to]):
+                    if bad and len(bad) != len(sizes):
+                        recs = [["0/1"] * n, ["0/0"] * n]
+                        cases.append("sites %s %s s:%s %s" % (",".join(cols), model_samples(sm), ",".join(map(str, bad)), model_records(recs)))
+                        cases.append("sites %s %s i:%s %s" % (",".join(cols), model_samples(sm), ",".join(str(x // 2) for x in bad), model_records(recs)))
     for _ in range(150 if tier == "quick" else 1500):
         cols, recs = random_callset(rng, nsamples=rng.randrange(1, 8), nrecords=rng.randrange(1, 12), p_skip=0.3)
         sm = random_map(rng, cols)
@@ -59,6 +66,8 @@ def check(rep, tier, seed):
             proj = ("s", [rng.randrange(1, 8) for _ in pop_sizes(sm)])
         if k % 17 == 0:
             proj = ("s", [m + rng.choice([0, 50]) for m in proj[1]] if proj[0] == "s" else proj[1]) if rng.random() < 0.5 else ("s", proj[1] + [3])
+        elif k % 17 == 1 and len(proj[1]) > 1:
+            proj = (proj[0], proj[1][:-1])                     # one entry fewer than there are populations
         p = rng.choice([0, 3, 6, 6, 9])
         jobs.append((["create", "--precision", str(p)] + cli_samples_arg(sm) + cli_project_arg(proj), render_vcf(cols, recs)))
         mcases.append("create 0 %s %s %s %s" % (",".join(cols), model_samples(sm), model_project(proj), model_records(recs)))
